@@ -17,12 +17,15 @@ type c04Mon struct {
 	form   int
 	code   int
 	calls  int
+	plain  bool // only plain sentinel errors (keeps a preparatory run cheap)
 }
 
 // mkErr builds an error in a symbolic form and records it as the ending cause.
 func (m *c04Mon) end() error {
 	m.dead = true
-	m.form = vChoice("errForm", 4)
+	if !m.plain {
+		m.form = vChoice("errForm", 4)
+	}
 	switch m.form {
 	case 0:
 		m.cause = vNewErr()
@@ -233,5 +236,35 @@ func VH_C04_batch() {
 	flow.Connect(p0, "next", b)
 	flow.Connect(b, "next", p2)
 	err := flow.Run(vNewCtx(), NewSharedStore())
+	m.finish(err)
+}
+
+// the same flow object run twice (a server handles many requests with one flow): the second run's
+// verdict depends on the second run's phases only — whatever way the first run ended
+func VH_C04_rerun() {
+	vUnwind(6)
+	m := &c04Mon{plain: true}
+	a, b := c04NewProbe(m, "next"), c04NewProbe(m, "next")
+	var flow *Flow
+	if vNondet[bool]("nested") {
+		vCover("rerun-nested")
+		inner := NewFlow(a)
+		inner.Connect(a, "next", b)
+		flow = NewFlow(inner)
+	} else {
+		flow = NewFlow(a)
+		flow.Connect(a, "next", b)
+	}
+	err1 := flow.Run(vNewCtx(), NewSharedStore())
+	firstFailed := m.dead
+	vAssume((err1 != nil) == firstFailed) // the first run's own verdict is the business of the other harnesses
+	*m = c04Mon{}
+	a.execs, b.execs = 0, 0
+	err := flow.Run(vNewCtx(), NewSharedStore())
+	if firstFailed {
+		vCover("second-run-after-a-failed-run")
+	} else {
+		vCover("second-run-after-a-successful-run")
+	}
 	m.finish(err)
 }
